@@ -58,6 +58,12 @@ pub enum Shape {
     Tag { name: String },
 }
 
+/// Message type of user-written (overriding) entry points.
+#[cosmwasm_schema::cw_serde]
+pub struct OvMsg {
+    pub tag: u32,
+}
+
 /// What the next handler invocation has to return.
 #[derive(Clone, Debug)]
 pub enum Plan {
